@@ -49,41 +49,53 @@ def src_hash():
 
 def mir_dump(features=''):
     """Dump the MIR of /repo's lib crate (dev profile: debug assertions and overflow checks on).
-    The dump is keyed by a hash of the working tree, so an edited tree is always re-dumped."""
+    The dump is keyed by a hash of the working tree, so an edited tree is always re-dumped.  Concurrent callers
+    (parallel template workers) are serialised with a file lock."""
+    import fcntl
     os.makedirs(TARGET, exist_ok=True)
-    key = src_hash() + 'v2' + (hashlib.sha256(REPO.encode()).hexdigest()[:6] if REPO != '/repo' else '') + ('-' + features.replace(',', '_') if features else '')
-    out = os.path.join(TARGET, 'mir-%s.txt' % key)
+    suffix = 'v2' + (hashlib.sha256(REPO.encode()).hexdigest()[:6] if REPO != '/repo' else '') + \
+        ('-' + features.replace(',', '_') if features else '')
+    out = os.path.join(TARGET, 'mir-%s%s.txt' % (src_hash(), suffix))
     if os.path.exists(out) and os.path.getsize(out) > 1000000:
         return out, 0.0
-    for f in os.listdir(TARGET):
-        if f.startswith('mir-') and f.endswith('.txt') and REPO == '/repo' and len(f) == len('mir-') + 18 + 4:
+    with open(os.path.join(TARGET, '.mir-lock'), 'w') as lock:
+        fcntl.flock(lock, fcntl.LOCK_EX)
+        if os.path.exists(out) and os.path.getsize(out) > 1000000:
+            return out, 0.0
+        # dumps of the same kind for an older tree are stale
+        for f in os.listdir(TARGET):
+            if f.startswith('mir-') and f.endswith(suffix + '.txt') and len(f) == len(os.path.basename(out)):
+                try:
+                    os.remove(os.path.join(TARGET, f))
+                except OSError:
+                    pass
+        t = time.time()
+        mir_target = os.path.join(TARGET, 'mir' if REPO == '/repo' else 'mir-' + hashlib.sha256(REPO.encode()).hexdigest()[:6])
+        env = dict(os.environ, CARGO_NET_OFFLINE='true', CARGO_TARGET_DIR=mir_target)
+        # cargo does not re-run rustc when nothing changed, and then prints no MIR: force it
+        fp = os.path.join(mir_target, 'debug', '.fingerprint')
+        if os.path.isdir(fp):
+            import shutil
+            for d in os.listdir(fp):
+                if d.startswith('penne-'):
+                    shutil.rmtree(os.path.join(fp, d), ignore_errors=True)
+        cmd = ['cargo', '+nightly', 'rustc', '--offline', '--lib']
+        if features:
+            cmd += ['--features', features]
+        # the alignment/null/enum UB-check passes only add instrumentation blocks; they are not semantics
+        cmd += ['--', '-Zunpretty=mir', '-Zmir-enable-passes=-CheckAlignment,-CheckNull,-CheckEnums']
+        tmp = '%s.%d.tmp' % (out, os.getpid())
+        with open(tmp, 'w') as fo:
+            p = subprocess.run(cmd, cwd=REPO, env=env, stdout=fo, stderr=subprocess.PIPE, text=True)
+        if p.returncode != 0 or os.path.getsize(tmp) < 1000000:
+            sys.stderr.write(p.stderr[-3000:])
             try:
-                os.remove(os.path.join(TARGET, f))
+                os.remove(tmp)
             except OSError:
                 pass
-    t = time.time()
-    mir_target = os.path.join(TARGET, 'mir' if REPO == '/repo' else 'mir-' + hashlib.sha256(REPO.encode()).hexdigest()[:6])
-    env = dict(os.environ, CARGO_NET_OFFLINE='true', CARGO_TARGET_DIR=mir_target)
-    # cargo does not re-run rustc when nothing changed, and then prints no MIR: force it
-    fp = os.path.join(mir_target, 'debug', '.fingerprint')
-    if os.path.isdir(fp):
-        import shutil
-        for d in os.listdir(fp):
-            if d.startswith('penne-'):
-                shutil.rmtree(os.path.join(fp, d), ignore_errors=True)
-    cmd = ['cargo', '+nightly', 'rustc', '--offline', '--lib']
-    if features:
-        cmd += ['--features', features]
-    # the alignment/null/enum UB-check passes only add instrumentation blocks; they are not semantics
-    cmd += ['--', '-Zunpretty=mir', '-Zmir-enable-passes=-CheckAlignment,-CheckNull,-CheckEnums']
-    tmp = out + '.tmp'
-    with open(tmp, 'w') as fo:
-        p = subprocess.run(cmd, cwd=REPO, env=env, stdout=fo, stderr=subprocess.PIPE, text=True)
-    if p.returncode != 0 or os.path.getsize(tmp) < 1000000:
-        sys.stderr.write(p.stderr[-3000:])
-        raise Inconclusive('MIR dump failed (does /repo still compile?)')
-    os.rename(tmp, out)
-    return out, time.time() - t
+            raise Inconclusive('MIR dump failed (does /repo still compile?)')
+        os.rename(tmp, out)
+        return out, time.time() - t
 
 
 # ------------------------------------------------------------------------------ known findings
@@ -161,6 +173,11 @@ def reflex_dump():
     src = open(os.path.join(VERIF, 'reflex', 'src', 'lib.rs'), 'rb').read()
     key = hashlib.sha256(src).hexdigest()[:16]
     out = os.path.join(TARGET, 'reflex-mir-%s.txt' % key)
+    if os.path.exists(out) and os.path.getsize(out) > 10000:
+        return out
+    import fcntl
+    lock = open(os.path.join(TARGET, '.mir-lock'), 'w')
+    fcntl.flock(lock, fcntl.LOCK_EX)
     if os.path.exists(out) and os.path.getsize(out) > 10000:
         return out
     env = dict(os.environ, CARGO_NET_OFFLINE='true', CARGO_TARGET_DIR=os.path.join(TARGET, 'reflex'))
